@@ -231,6 +231,7 @@ static HistSpec gen_history(std::vector<std::string> *classes) {
   GenCfg cfg;
   cfg.thorough = g_thorough;
   cfg.allow_large = false;
+  cfg.allow_wide = false;  // option sets are applied across the geometries of the pool
   cfg.max_extra_atts = 2;
   const int np = R(2, 4);
   for (int i = 0; i < np; ++i) {
